@@ -525,6 +525,21 @@ fn rcubes(r: &mut StdRng, n: usize, maxk: usize) -> Vec<(usize, usize)> {
     v
 }
 
+/// a literal list as a caller may write it: in any order, with repeated entries
+fn sloppy(r: &mut StdRng, m: usize) -> Vec<usize> {
+    let mut v = bits(m);
+    if !v.is_empty() {
+        for _ in 0..r.gen_range(0..3) {
+            let x = v[r.gen_range(0..v.len())];
+            v.push(x);
+        }
+        for k in (1..v.len()).rev() {
+            v.swap(k, r.gen_range(0..=k));
+        }
+    }
+    v
+}
+
 fn cubes_json(cs: &[(usize, usize)]) -> Value {
     json!(cs.iter().map(|&(p, q)| json!({"p": bits(p), "q": bits(q)})).collect::<Vec<_>>())
 }
@@ -594,6 +609,7 @@ fn candidate(prop: &str, r: &mut StdRng) -> (usize, Vec<Value>) {
                         let extra = if nv > 0 { 1usize << r.gen_range(0..nv) } else { 0 };
                         json!({"op": "t_mk", "k": "cube", "c": "from_vars", "d": d, "p": bits(c.0 | extra), "q": bits(c.1)})
                     }
+                    3 => json!({"op": "t_mk", "k": "cube", "c": "from_vars", "d": d, "p": sloppy(r, c.0), "q": sloppy(r, c.1)}),
                     _ => json!({"op": "t_mk", "k": "cube", "c": "from_vars", "d": d, "p": bits(c.0), "q": bits(c.1)}),
                 }
             };
@@ -634,8 +650,9 @@ fn candidate(prop: &str, r: &mut StdRng) -> (usize, Vec<Value>) {
                 let all = if nv >= 64 { usize::MAX } else { (1usize << nv) - 1 };
                 let va = r.gen::<usize>() & all;
                 let vb = if r.gen() { va ^ (1 << r.gen_range(0..nv)) } else { r.gen::<usize>() & all };
+                let la = if r.gen_range(0..3) == 0 { sloppy(r, va) } else { bits(va) };
                 let mut ops = vec![
-                    json!({"op": "t_mk", "k": "ecube", "c": "from_vars", "d": 0, "v": bits(va), "x": r.gen::<bool>()}),
+                    json!({"op": "t_mk", "k": "ecube", "c": "from_vars", "d": 0, "v": la, "x": r.gen::<bool>()}),
                     json!({"op": "t_mk", "k": "ecube", "c": "from_vars", "d": 1, "v": bits(vb), "x": r.gen::<bool>()}),
                 ];
                 for _ in 0..3 {
